@@ -102,8 +102,6 @@ def normalise(F, Fn):
             continue
         if "::test" in k or "::tests::" in k or len(f.blocks) > MAX_BLOCKS:
             continue
-        if any(g.d.get("closure_of") == k for g in F.fns.values()):
-            continue
         cands[k] = f
     if not cands:
         return []
@@ -129,6 +127,10 @@ def normalise(F, Fn):
                 key = fr.get("resolved") or fr.get("key")
                 inline_call(d, bb, F.fns[key].d)
                 done.append((key, ck))
+                # the helper's closures now belong (also) to the caller
+                for g in F.fns.values():
+                    if g.d.get("closure_of") == key or key in g.d.get("closure_of_also", []):
+                        g.d.setdefault("closure_of_also", []).append(ck)
             nf = Fn(d, f.crate)
             F.fns[ck] = nf
             for c in F.crates.values():
@@ -144,6 +146,9 @@ def normalise(F, Fn):
         referenced |= set(vs)
     for k in {h for h, _ in done}:
         if k not in referenced:
+            for g in F.fns.values():
+                if g.d.get("closure_of") == k and g.d.get("closure_of_also"):
+                    g.d["closure_of"] = g.d["closure_of_also"][0]
             F.fns.pop(k, None)
             for c in F.crates.values():
                 c.fns.pop(k, None)
